@@ -744,7 +744,9 @@ def run(res):
                                    input=dict(probe='harness/props/c15.py direct_probes', trace=traceback.format_exc()[-600:]),
                                    observed='%s: %s' % (type(e).__name__, e), expected='no exception'))
     targets, expo = make_targets(data, res.seed % 1000)
-    cases, meta = history_cases(res, rng, 396 if quick else 4004, data, targets, expo)
+    # progress bars of inner grid searches (bootstrap sampling) go to stderr: keep the check's output to its own lines
+    with contextlib.redirect_stderr(io.StringIO()):
+        cases, meta = history_cases(res, rng, 396 if quick else 4004, data, targets, expo)
     with common.CaseDir(PROP) as cd:
         failing, errors = common.run_bool_cases(cd, HEADER, cases, 'check_case', shard=60)
     for name, out in errors:
